@@ -10,6 +10,11 @@ ALLOWED_AXIOMS = {
     "ClassicalDedekindReals.sig_forall_dec",
     "FunctionalExtensionality.functional_extensionality_dep",
 }
+MANIFEST = {
+    "text": "Coq theorems about a Gallina transcription of DataValue::{greater_than,equals,..} (all 36 numeric kind pairs, Flocq IEEE-754 for f32/f64): every answer is the exact order of the numbers represented, equality answers true only within the epsilon and always for identical finite numbers, declining only for non-numeric operands or i64/u64 outside the 32-bit range against a float. The model is tied to the code on every run by an exhaustive bit-exact differential sweep (5 functions x 36 kind pairs x boundary pool, ~1.6e5 calls) plus an exact-rational monitor on the implementation's answers.",
+    "note": "Trusted: Coq kernel; Flocq; the 4 classical/real-number axioms of Coq's standard library that Flocq's reals depend on (as printed by Print Assumptions); extraction (ExtrOcamlBasic) + OCaml driver, cross-checked by vm_compute on a sample each run; the Rust harness and Python differ. The theorem is about the model; the code is covered by the exhaustive-cell correspondence, not by proof.",
+    "technique": "machine-checked proof in Coq (Flocq) + exhaustive differential correspondence",
+}
 EXHAUSTIVE = True
 SHRINK = False
 RULE = ("full cross product: 5 functions (gt, gte, lt, lte, eq) x 6x6 numeric kind pairs x a "
